@@ -53,3 +53,42 @@ def is_poll_of_role(f, x, role):
     """x is (the result of) polling / calling the future of the async fn playing `role`"""
     p = anchors(f).get(role)
     return p is not None and isinstance(x, tuple) and x and x[0] in ("call", "pure") and (x[1] == p or x[1].startswith(p + "::{closure"))
+
+
+def _places(j):
+    """every place object in a body's JSON"""
+    if isinstance(j, dict):
+        if "l" in j and "p" in j and isinstance(j["p"], list):
+            yield j
+        for v in j.values():
+            yield from _places(v)
+    elif isinstance(j, list):
+        for v in j:
+            yield from _places(v)
+
+
+def accept_callbacks(f):
+    """The per-connection callback of bind(): the coroutine bodies that are handed the outcome of accept() - a captured
+    `Result<.. FramedIo ..>` - and run the handshake driver on it. Found by what they hold and call: an async block inside the
+    closure given to begin_accept, or a named async fn, at any nesting depth."""
+    from ..common import type_holds
+    drv = anchors(f).get("driver")
+    out = []
+    if drv is None:
+        return out
+    for b in f.bodies:
+        if not b.j.get("coroutine_kind") or "::test" in b.path:
+            continue
+        if not any(fn and (fn["path"] == drv or (fn.get("resolved") or {}).get("path") == drv) for bb, t, fn in b.calls()):
+            continue
+        holds = False
+        for pl in _places(b.j["blocks"]):
+            if pl["l"] != 1:
+                continue
+            for el in pl["p"]:
+                ty = el.get("ty") or ""
+                if el.get("k") == "field" and ty.startswith("std::result::Result<") and type_holds(f, ty, "framed::FramedIo"):
+                    holds = True
+        if holds:
+            out.append(b)
+    return out
